@@ -66,6 +66,10 @@ func customRoutes(cfg *config.Custom, ch chan string) {
 		}
 		log.Printf("[DEBUG] Custom Registry begin decoding json %s \n", time.Now())
 		decoder := json.NewDecoder(resp.Body)
+		// decode into a fresh value: decoding into the previous list reuses its
+		// elements and keeps the fields (weight, tags, opts) of the previous
+		// answer wherever the new answer omits them
+		Routes = nil
 		err = decoder.Decode(&Routes)
 		if err != nil {
 			ch <- fmt.Sprintf("Error decoding request - %s -%s", URL, err.Error())
